@@ -51,7 +51,8 @@ type vkNet struct {
 	pkts   int
 	tapOn  bool
 	// writes to a crashed host return an error
-	unreach bool
+	unreach   bool
+	slowWrite bool
 }
 
 type vkTr struct {
@@ -219,6 +220,9 @@ func (t *vkTr) WriteToAddress(b []byte, a Address) (time.Time, error) {
 	if dup {
 		go deliver(lat2)
 	}
+	if n.slowWrite && inProbe {
+		time.Sleep(2*n.maxLat + 2*time.Microsecond)
+	}
 	return now, nil
 }
 func (t *vkTr) PacketCh() <-chan *Packet { return t.packetCh }
@@ -378,8 +382,9 @@ func (e *vkEv) NotifyLeave(nd *Node) {
 }
 
 type vkDel struct {
-	mu   sync.Mutex
-	meta int64
+	mu     sync.Mutex
+	meta   int64
+	chatty bool
 }
 
 func (d *vkDel) NodeMeta(int) []byte {
@@ -388,7 +393,16 @@ func (d *vkDel) NodeMeta(int) []byte {
 	return []byte(strconv.FormatInt(d.meta, 10))
 }
 func (d *vkDel) NotifyMsg([]byte)                {}
-func (d *vkDel) GetBroadcasts(int, int) [][]byte { return nil }
+func (d *vkDel) GetBroadcasts(overhead, limit int) [][]byte {
+	if !d.chatty || 255*(1+overhead) > limit {
+		return nil
+	}
+	out := make([][]byte, 255)
+	for i := range out {
+		out[i] = []byte{byte(i)}
+	}
+	return out
+}
 func (d *vkDel) LocalState(bool) []byte          { return nil }
 func (d *vkDel) MergeRemoteState([]byte, bool)   {}
 
@@ -412,7 +426,12 @@ const (
 	vkSlowGossip = 16
 	// a datagram to a crashed host fails at the sender with "no route to host" instead of vanishing
 	vkUnreach = 32
-	vkMax     = 32
+	// the sender is descheduled right after the datagram left: a probe's write returns only after the
+	// answer has had time to come back
+	vkSlowWrite = 64
+	// the application always has exactly 255 one-byte broadcasts to piggy-back
+	vkChatty = 128
+	vkMax    = 32
 )
 
 type vkSim struct {
@@ -461,7 +480,7 @@ func (s *vkSim) mk(i int) *Memberlist {
 	cfg.TCPTimeout = 2 * s.pi
 	cfg.Events = &vkEv{n: s.vn, id: i}
 	s.gen[i]++
-	d := &vkDel{meta: s.gen[i] * 1000}
+	d := &vkDel{meta: s.gen[i] * 1000, chatty: c[5]&vkChatty != 0}
 	cfg.Delegate = d
 	s.dels[i] = d
 	m, err := Create(cfg)
@@ -568,6 +587,7 @@ func vkRun(t *testing.T, c *vfCase, st *vfStats) {
 		vn.label = "vk"
 	}
 	vn.unreach = c.Cfg[5]&vkUnreach != 0
+	vn.slowWrite = c.Cfg[5]&vkSlowWrite != 0
 	s := &vkSim{t: t, c: c, vn: vn, N: N, pi: pi, ms: make([]*Memberlist, vkMax), dels: make([]*vkDel, vkMax), gen: make([]int64, vkMax), live: make([]bool, vkMax), left: make([]bool, vkMax)}
 	for _, op := range c.Ops {
 		time.Sleep(time.Duration(op[0]) * time.Millisecond)
@@ -717,6 +737,12 @@ func vkCfg(r *vfRng, kind int, N int) []int64 {
 	pi := int64([]int{200, 1000}[r.n(2)])
 	ptdiv := int64(2 + r.n(3))
 	flags := int64(r.n(64))
+	if r.chance(25) {
+		flags |= vkSlowWrite
+	}
+	if r.chance(15) {
+		flags |= vkChatty
+	}
 	awmax := int64([]int{8, 4}[r.n(2)])
 	smm := int64([]int{6, 3}[r.n(2)])
 	cfg := []int64{int64(kind), int64(N), pi, ptdiv, int64(r.n(4)), flags, awmax, smm, int64(r.n(1 << 30))}
